@@ -5,13 +5,14 @@ EXTENDS TextFormats, TLC, Json
 
 CONSTANTS MaxCats, MaxLines, MaxCalls, Emit
 
-\* small alphabets; "A b" has an inner space, values include the empty string
-CatNames == {<<67,49>>, <<67,32,50>>}             \* "C1", "C 2"
+\* small alphabets; one category name and one new value have an inner TAB (a line is a category line because of its
+\* brackets, whatever else it holds; a pair splits at its first TAB only), values include the empty string
+CatNames == {<<67,49>>, <<67,9,50>>}              \* "C1", "C<TAB>2"
 AbsentCat == <<90>>                                 \* "Z"
 Keys     == {<<97>>, <<98>>}                       \* "a" "b"
 AbsentKey == <<99>>                                 \* "c"
 Vals     == {<<>>, <<120>>}                        \* "" "x"
-NewVals  == {<<>>, <<120,32,121>>}                 \* "" "x y"
+NewVals  == {<<>>, <<120,9,121>>}                  \* "" "x<TAB>y"
 
 PairSeqs == UNION {[1..n -> Keys \X Vals] : n \in 0..MaxLines}
 Cats == [name : CatNames, pairs : PairSeqs]
